@@ -46,6 +46,7 @@ type Case struct {
 	Ops     []eng.Op   `json:"ops"`
 	Sched   []int      `json:"sched"`
 	Note    string     `json:"note,omitempty"`
+	Probe   string     `json:"probe,omitempty"` // "memory-lock-discipline": run MemoryLockProbe (no operations)
 }
 
 type OpObs struct {
@@ -69,6 +70,7 @@ type Obs struct {
 	Objs      map[string]map[string]string `json:"objs"`
 	Effective []int                        `json:"effective"` // schedule entries that released a gate
 	Hang      string                       `json:"hang,omitempty"`
+	Probe     []string                     `json:"probe,omitempty"` // findings of the lock-discipline probe
 }
 
 // ---------- per-operation control ----------
@@ -350,6 +352,9 @@ const stepTimeout = 20 * time.Second
 
 // Run replays the case.
 func Run(c Case) (obs Obs) {
+	if c.Probe == "memory-lock-discipline" {
+		obs.Probe = MemoryLockProbe()
+	}
 	r := eng.NewRunner(c.Backend)
 	obs.Pre = r.Run(eng.History{Backend: c.Backend, Init: c.Init, Steps: c.Pre})
 	r.Srv.TakeMuts()
